@@ -58,11 +58,15 @@ pub fn pool(lane: usize, threads: usize) -> Arc<ThreadPool> {
 
 pub struct BuildOpts {
     pub provide: bool,
+    pub capture_debug: bool,
 }
 
 impl Default for BuildOpts {
     fn default() -> Self {
-        BuildOpts { provide: true }
+        BuildOpts {
+            provide: true,
+            capture_debug: false,
+        }
     }
 }
 
@@ -125,9 +129,11 @@ pub fn build_builder(
                 writes,
                 rt,
                 kind,
+                extra_deps,
             } => {
                 let idx = bi.op_sys[i].unwrap();
-                let dn = dep_names(deps);
+                let mut dn = dep_names(deps);
+                dn.extend(extra_deps.iter().cloned());
                 let dr: Vec<&str> = dn.iter().map(|s| s.as_str()).collect();
                 match kind {
                     Kind::Dyn => {
@@ -163,13 +169,15 @@ pub fn build_builder(
                 ctl,
                 rt,
                 inner,
+                extra_deps,
             } => {
                 let idx = bi.op_sys[i].unwrap();
                 let ib = flat.sys[idx].inner_bid.unwrap();
                 // every nested builder gets the pool explicitly: a builder without one would create a
                 // default 16-thread pool as soon as *its* nested batch is built
                 let inner_b = build_builder(inner, flat, ib, ctx, pool.clone(), opts)?;
-                let dn = dep_names(deps);
+                let mut dn = dep_names(deps);
+                dn.extend(extra_deps.iter().cloned());
                 let dr: Vec<&str> = dn.iter().map(|s| s.as_str()).collect();
                 with_fam!(*decl, F, {
                     match ctl {
@@ -200,6 +208,10 @@ pub fn build_builder(
                 });
             }
         }
+    }
+    if opts.capture_debug {
+        let text = catch_unwind(AssertUnwindSafe(|| format!("{:?}", b))).map_err(|p| panic_msg(&p));
+        ctx.debug_texts.lock().unwrap().insert(bid, text);
     }
     Ok(b)
 }
